@@ -188,6 +188,8 @@ def cmd_run(args):
         raise HarnessError(f"ran {agg['runs']} of {runs} runs")
     # determinism slice: re-execute a few run indices in this process and in a fresh one
     det = determinism_slice(prop, seed, tier, min(runs, 24 if tier == "quick" else 64))
+    fid = fidelity_slice(prop, seed, tier, min(runs, 12 if tier == "quick" else 200)) \
+        if prop in ("C05", "C13", "C16") else {"runs_compared": 0, "note": "scenario does no file I/O"}
     known = load_known()
     directed = directed_known(prop, known)
     new_viol = []
@@ -217,7 +219,7 @@ def cmd_run(args):
             raise HarnessError(f"replay of {path} in a fresh interpreter gave {sig2}, expected {v['signature']}")
         reported.append((v, path, len(steps)))
     wall_s = time.time() - t0
-    write_evidence(prop, tier, seed, level, agg, runs, wall_s, det, known_seen, reported, new_viol, workers)
+    write_evidence(prop, tier, seed, level, agg, runs, wall_s, det, known_seen, reported, new_viol, workers, fid)
     for sig, text, count in known_seen:
         print(f"KNOWN-FINDING: property={prop} signature={sig} {text} (seen {count}x)")
     for v, path, n in reported:
@@ -250,16 +252,120 @@ def determinism_slice(prop, seed, tier, n):
     return {"runs_checked": n, "in_process_twice": "identical", "fresh_interpreter_other_hashseed": "identical"}
 
 
+def fidelity_slice(prop, seed, tier, n):
+    """Stub fidelity (DESIGN s3.8): the same runs on SimFS and on a real scratch
+    directory must have identical fingerprints (which cover every step outcome,
+    every object state and the final bytes of every file)."""
+    import shutil
+    import tempfile
+    from . import runner, simfs
+
+    over = {"xio": False}
+    same = 0
+    with_files = 0
+    for i in range(n):
+        a = runner.generate(prop, seed, tier, i, cfg_override=over)
+        root = tempfile.mkdtemp(prefix="dsim_realfs_")
+        try:
+            b = runner.generate(prop, seed, tier, i, fs=simfs.RealFS(root), cfg_override=over)
+        finally:
+            shutil.rmtree(root, ignore_errors=True)
+        if a.fingerprint != b.fingerprint:
+            raise HarnessError(f"stub fidelity: run {i} of {prop} differs between SimFS and a real directory")
+        same += 1
+        if a.stats.get("fs_opens", 0):
+            with_files += 1
+    return {"runs_compared": same, "runs_with_file_io": with_files, "result": "identical fingerprints"}
+
+
+def _fid_range(prop, seed, tier, lo, hi):
+    import shutil
+    import tempfile
+    from . import runner, simfs
+
+    over = {"xio": False}
+    n = f = 0
+    for i in range(lo, hi):
+        a = runner.generate(prop, seed, tier, i, cfg_override=over)
+        root = tempfile.mkdtemp(prefix="dsim_realfs_")
+        try:
+            b = runner.generate(prop, seed, tier, i, fs=simfs.RealFS(root), cfg_override=over)
+        finally:
+            shutil.rmtree(root, ignore_errors=True)
+        if a.fingerprint != b.fingerprint:
+            raise HarnessError(f"stub fidelity: run {i} of {prop} differs between SimFS and a real directory")
+        n += 1
+        f += 1 if a.stats.get("fs_opens", 0) else 0
+    return n, f
+
+
 def cmd_fingerprints(args):
     from . import runner
 
-    for i in range(args.n):
+    for i in range(args.lo, args.n):
         print(runner.generate(args.prop, args.seed, args.tier, i).fingerprint)
     return 0
 
 
+def _fp_range(prop, seed, tier, lo, hi):
+    from . import runner
+
+    return [runner.generate(prop, seed, tier, i).fingerprint for i in range(lo, hi)]
+
+
+def cmd_selftest_determinism(args):
+    """DESIGN s7: N run indices per property executed (a) twice in this process,
+    (b) in fresh interpreters under PYTHONHASHSEED=0, =1 and random, (c) through
+    process pools of 1, 4 and 16 workers; every fingerprint list must be equal."""
+    import hashlib
+    from . import registry
+
+    seed = int(os.environ.get("VERIF_SEED", "0"))
+    report = {"seed": seed, "n_per_property": args.n, "tier": args.tier, "properties": {}}
+    ok = True
+    ctx = multiprocessing.get_context("fork")
+    for prop in sorted(registry.TABLE):
+        n = args.n if prop != "C13" else max(50, args.n // 10)
+        t0 = time.time()
+        base = _fp_range(prop, seed, args.tier, 0, n)
+        again = _fp_range(prop, seed, args.tier, 0, n)
+        res = {"n": n, "in_process_twice": base == again}
+        for hs in ("0", "1", "random"):
+            env = dict(os.environ, PYTHONHASHSEED=hs)
+            outs = []
+            procs = []
+            step = max(1, n // 8)
+            for lo in range(0, n, step):
+                procs.append(subprocess.Popen(
+                    [sys.executable, "-m", "dsim", "fingerprints", prop, args.tier, str(seed),
+                     str(min(n, lo + step)), "--lo", str(lo)],
+                    cwd=VERIF, env=env, stdout=subprocess.PIPE, text=True))
+            for pr in procs:
+                o, _ = pr.communicate(timeout=1800)
+                outs.extend(l for l in o.split() if len(l) == 64)
+            res["fresh_interpreter_hashseed_" + hs] = outs == base
+        for wk in (1, 4, 16):
+            step = max(1, n // (wk * 3))
+            with ProcessPoolExecutor(max_workers=wk, mp_context=ctx) as ex:
+                futs = [ex.submit(_fp_range, prop, seed, args.tier, lo, min(n, lo + step)) for lo in range(0, n, step)]
+                got = [fp for f in futs for fp in f.result()]
+            res[f"pool_{wk}_workers"] = got == base
+        res["digest"] = hashlib.sha256("".join(base).encode()).hexdigest()
+        res["distinct"] = len(set(base))
+        res["wall_s"] = round(time.time() - t0, 1)
+        report["properties"][prop] = res
+        good = all(v for k, v in res.items() if isinstance(v, bool))
+        ok = ok and good
+        print(f"{prop}: {'identical' if good else 'MISMATCH'} {res}")
+    d = os.path.join(VERIF, "selftests")
+    os.makedirs(d, exist_ok=True)
+    with open(os.path.join(d, "determinism.json"), "w") as f:
+        json.dump(report, f, indent=1)
+    return 0 if ok else 2
+
+
 # ----------------------------------------------------------------------------- evidence
-def write_evidence(prop, tier, seed, level, agg, runs, wall_s, det, known_seen, reported, new_viol, workers):
+def write_evidence(prop, tier, seed, level, agg, runs, wall_s, det, known_seen, reported, new_viol, workers, fid=None):
     st = agg["stats"]
     ops = {k[3:]: v for k, v in sorted(st.items()) if k.startswith("op:")}
     faults = {k[6:]: v for k, v in sorted(st.items()) if k.startswith("fault:")}
@@ -290,6 +396,7 @@ def write_evidence(prop, tier, seed, level, agg, runs, wall_s, det, known_seen, 
         "non_praatio_exceptions": nonp,
         "scenario_counters": extra,
         "determinism_slice": det,
+        "stub_fidelity_slice": fid,
         "real_vs_stub": {
             "real": ["every executed line of praatio (imported from " + REPO + ")", "wave", "codecs",
                      "io.TextIOWrapper", "io.Buffered*", "json", "struct", "copy"],
@@ -350,6 +457,13 @@ def main(argv=None):
     f.add_argument("tier")
     f.add_argument("seed", type=int)
     f.add_argument("n", type=int)
+    f.add_argument("--lo", type=int, default=0)
+    sf = sub.add_parser("selftest-fidelity")
+    sf.add_argument("--n", type=int, default=1500)
+    sf.add_argument("--tier", default="quick")
+    sd = sub.add_parser("selftest-determinism")
+    sd.add_argument("--n", type=int, default=5000)
+    sd.add_argument("--tier", default="quick")
     args = ap.parse_args(argv)
     try:
         if args.cmd == "run":
@@ -358,6 +472,25 @@ def main(argv=None):
             return cmd_replay(args)
         if args.cmd == "fingerprints":
             return cmd_fingerprints(args)
+        if args.cmd == "selftest-fidelity":
+            seed = int(os.environ.get("VERIF_SEED", "0"))
+            rep = {}
+            ctx = multiprocessing.get_context("fork")
+            for prop in ("C05", "C13", "C16"):
+                n = args.n if prop != "C13" else max(40, args.n // 10)
+                step = max(1, n // 16)
+                # each worker compares its own index range (fidelity_slice starts at 0; use offsets through VERIF_SEED-free ranges)
+                with ProcessPoolExecutor(max_workers=16, mp_context=ctx) as ex:
+                    futs = [ex.submit(_fid_range, prop, seed, args.tier, lo, min(n, lo + step)) for lo in range(0, n, step)]
+                    parts = [f.result() for f in futs]
+                rep[prop] = {"runs_compared": sum(p[0] for p in parts), "runs_with_file_io": sum(p[1] for p in parts),
+                             "result": "identical fingerprints"}
+                print(prop, rep[prop])
+            os.makedirs(os.path.join(VERIF, "selftests"), exist_ok=True)
+            json.dump(rep, open(os.path.join(VERIF, "selftests", "fidelity.json"), "w"), indent=1)
+            return 0
+        if args.cmd == "selftest-determinism":
+            return cmd_selftest_determinism(args)
     except HarnessError as e:
         print(f"HARNESS-ERROR: {e}", file=sys.stderr)
         return 2
